@@ -1447,6 +1447,10 @@ add_seen(ndtr_t *tr, ndnd_t *nd)
 static inline bool
 chkpntedp(uid_t u)
 {
+	if (UNLIKELY(ichkpnts >= countof(chkpnts))) {
+		/* marks have been dropped, could have been U's */
+		return true;
+	}
 	if (NEDTRIE_FIND(ndtr_t, &chkpntr, &(ndnd_t){.key = u}) != NULL) {
 		return true;
 	}
@@ -1456,6 +1460,10 @@ chkpntedp(uid_t u)
 static void
 add_chkpnt(uid_t u)
 {
+	if (chkpntedp(u)) {
+		/* one mark per user will do */
+		return;
+	}
 	if (LIKELY(ichkpnts < countof(chkpnts))) {
 		const size_t i = ichkpnts++;
 		chkpnts[i].key = u;
